@@ -372,6 +372,34 @@ func vpBuildXR(a []int) vpCase {
 				d, ok := b.(*UnknownReportBlock)
 				return ok && uint8(d.XRHeader.BlockType) == bt && uint8(d.XRHeader.TypeSpecific) == ts && int(d.XRHeader.BlockLength) == nb/4 && vpBytesEq(d.Bytes, data)
 			})
+		case 10, 11:
+			// RLE blocks with an odd number of chunks (1 or 3)
+			nch := 1
+			if k == 11 {
+				nch = 3
+			}
+			ssrc := vpU32()
+			cs := make([]Chunk, nch)
+			for i := range cs {
+				cs[i] = Chunk(vpU16())
+			}
+			v.Reports = append(v.Reports, &LossRLEReportBlock{T: 1, SSRC: ssrc, BeginSeq: vpU16(), EndSeq: vpU16(), Chunks: cs})
+			dst = append(dst, ssrc)
+			checks = append(checks, func(b ReportBlock) bool { return true })
+		case 12:
+			ssrc := vpU32()
+			v.Reports = append(v.Reports, &PacketReceiptTimesReportBlock{T: 2, SSRC: ssrc, ReceiptTime: []uint32{vpU32()}})
+			dst = append(dst, ssrc)
+			checks = append(checks, func(b ReportBlock) bool { return true })
+		case 13:
+			v.Reports = append(v.Reports, &DLRRReportBlock{Reports: []DLRRReport{{SSRC: vpU32()}, {SSRC: vpU32()}}})
+			checks = append(checks, func(b ReportBlock) bool { return true })
+		case 14:
+			v.Reports = append(v.Reports, &DLRRReportBlock{})
+			checks = append(checks, func(b ReportBlock) bool { return true })
+		case 15:
+			v.Reports = append(v.Reports, &UnknownReportBlock{XRHeader: XRHeader{BlockType: 9}, Bytes: vpBytes(8)})
+			checks = append(checks, func(b ReportBlock) bool { return true })
 		default:
 			panic("unknown XR block kind")
 		}
@@ -397,3 +425,6 @@ func vpBuildXR(a []int) vpCase {
 			return r
 		}}
 }
+
+// bit-identical float comparison (so that equal NaN payloads compare equal)
+func vpF32Same(x, y float32) bool { return math.Float32bits(x) == math.Float32bits(y) }
